@@ -22,6 +22,7 @@ class G:
         self.clash = None
         self.pool = list(POOL)
         self.bpool = list(POOL)       # names of parameters and rec binders
+        self.binders_seen = []        # names bound so far by parameters and rec binders
 
     def fresh(self, p):
         self.k += 1
@@ -35,7 +36,10 @@ class G:
             names = list(scope) + list(self.decls) + list(self.libu)
             if r.random() < 0.04:
                 self.unbound = True
-                return ["var", "zz"]
+                # a name that no binder in scope declares: sometimes the name of a binder whose scope has ended (a parameter of
+                # another function, the binder of a rec that is closed) - it must not leak
+                gone = [b for b in self.binders_seen if b not in names and b != "concat"]
+                return ["var", r.choice(gone) if gone and r.random() < 0.6 else "zz"]
             if self.libq and r.random() < 0.15:
                 return ["qvar", "m", r.choice(list(self.libq))]
             if self.libq and r.random() < 0.03:
@@ -50,6 +54,7 @@ class G:
             return ["mark", self.fresh("K")]
         if x < 0.75 and depth > 0:
             b = r.choice(self.bpool)
+            self.binders_seen.append(b)
             body = ["obj", [(self.fresh("u"), self.expr(scope + [b], depth - 1, fn_ok)), (self.fresh("s"), ["arr", ["var", b]])]]
             return ["rec", b, body]
         if x < 0.9 and fn_ok and self.funcs:
@@ -91,11 +96,23 @@ class G:
             if r.random() < 0.7:
                 params = list(dict.fromkeys(params))        # mostly distinct parameter names
             fname = "f%d" % i
+            self.binders_seen += params
             body = ["obj", [(self.fresh("u"), self.expr(params, 2)) for _ in range(r.randint(1, 3))]]
             self.funcs[fname] = (params, body)
         res = []
         for i in range(r.randint(1, 3)):
             res.append(self.expr([], 2))
+        if r.random() < 0.25:
+            # a function applied twice to different arguments, whose body applies another function to a compound argument that
+            # contains its parameter: each application sees the binding of its own call
+            pa, pb = r.choice(self.bpool), r.choice(self.bpool)
+            self.binders_seen += [pa, pb]
+            self.funcs["fd"] = ([pa], ["obj", [(self.fresh("u"), ["var", pa])]])
+            inner = r.choice([["arr", ["var", pb]], ["obj", [(self.fresh("u"), ["var", pb])]],
+                              ["obj", [(self.fresh("u"), ["arr", ["var", pb]]), (self.fresh("u"), ["mark", self.fresh("K")])]]])
+            self.funcs["fe"] = ([pb], ["obj", [(self.fresh("u"), ["app", "fd", [inner]]), (self.fresh("u"), ["var", pb])]])
+            res.append(["app", "fe", [["mark", self.fresh("K")]]])
+            res.append(["obj", [(self.fresh("u"), ["app", "fe", [["mark", self.fresh("K")]]])]])     # parameters are monomorphic: a mark again
         dup = None
         if r.random() < 0.05 and self.decls:
             dup = r.choice(list(self.decls))
